@@ -2,6 +2,7 @@
 import PsutilModel.Model.C05
 import PsutilModel.Model.C05Dyn
 import PsutilModel.Model.C05Seq
+import PsutilModel.Model.C05Range
 import PsutilModel.Generated.C05
 namespace Psutil.C05
 
@@ -29,6 +30,12 @@ def xcfg : XCfg :=
 def ocfg : ObjCfg :=
   { ppidUncached := Gen.C05.ppidUncached
     ctimeCached := Gen.C05.ctimeCached }
+
+/-- the range gate of `Process(pid)` (Model/C05Range.lean): the C helper's limit and the shape of `Process._init()` -/
+def rcfg : RCfg :=
+  { cLimit := Gen.C05.checkPidRangeLimit
+    cShapeKnown := Gen.C05.checkPidRangeShapeKnown
+    initOnlyC := Gen.C05.initRangeOnlyC }
 
 /-- how the two stat readers cut the line, as extracted from the current source -/
 def scfg : StatCfg :=
